@@ -326,6 +326,32 @@ def load_known_findings(prop: str) -> tuple[list[dict], list[str]]:
     return open_, fixed
 
 
+class QuietStderr:
+    """fd-level redirect of stderr (zorg's loggers and ANTLR's console listener write there)."""
+
+    def __enter__(self):
+        if os.environ.get("VERIF_VERBOSE"):
+            return self
+        sys.stderr.flush()
+        self.saved = os.dup(2)
+        self.tmp = tempfile.TemporaryFile()
+        os.dup2(self.tmp.fileno(), 2)
+        return self
+
+    def __exit__(self, et, ev, tb):
+        if os.environ.get("VERIF_VERBOSE"):
+            return False
+        sys.stderr.flush()
+        os.dup2(self.saved, 2)
+        os.close(self.saved)
+        if et is not None:
+            self.tmp.seek(0)
+            data = self.tmp.read().decode("utf-8", "replace")
+            sys.stderr.write(data[-3000:])
+        self.tmp.close()
+        return False
+
+
 class Ctx:
     def __init__(self, prop: str, tier: str, seed: int):
         self.prop = prop
@@ -505,12 +531,14 @@ def run_check(
             for f in res.failures:
                 print("REPRODUCED:", f.what)
             return 1 if (res.failures or res.disagreements or not proof.ok) else 0
-        res = body(ctx, proof)
+        with QuietStderr():
+            res = body(ctx, proof)
         if (not proof.ok or res.disagreements) and not res.failures:
             # search mode: enlarged budget, looking for an input on which the property fails
             ctx.search_mode = True
             ctx.rng = random.Random(f"{prop}-{ctx.seed}-search")
-            res2 = body(ctx, proof)
+            with QuietStderr():
+                res2 = body(ctx, proof)
             res.merge(res2)
         return finish(ctx, proof, res, rule=rule, assumptions=assumptions, classify=classify)
     except subprocess.TimeoutExpired as e:
